@@ -22,7 +22,7 @@ import (
 	"github.com/flamego/flamego/verifharness/internal/rt"
 )
 
-const rule = "case = environment in {development, production, test} x Recovery placed as application middleware, group handler or first route handler x 0..2 recording middleware before it x 1..3 later handlers, each of the shape func(Context), func(ResponseWriter, *Request) or http.HandlerFunc and a program over {write a status, write body bytes, Next(), cancel the request context, panic(value), require an unresolvable dependency} with panic values of kinds {string, error, runtime error, struct, http.ErrAbortHandler, custom error, integer, typed-nil error}; the environment may change between construction and requests x a sequence of 1..4 requests mixing the panicking route and a healthy one. " +
+const rule = "case = environment in {development, production, test} x Recovery placed as application middleware, group handler or first route handler x 0..2 recording middleware before it x 1..3 later handlers, each of the shape func(Context), func(ResponseWriter, *Request) or http.HandlerFunc and a program over {write a status, write body bytes, Next(), cancel the request context, panic(value), require an unresolvable dependency} with panic values of kinds {string, error, runtime error, struct, http.ErrAbortHandler, custom error, integer, typed-nil error, slice, map, struct with a slice field}; GET or HEAD; the environment may change between construction and requests x a sequence of 1..4 requests mixing the panicking route and a healthy one. " +
 	"Oracle: nothing escapes ServeHTTP; an interpreter of the handler programs says what had been sent before the panic: status = that status, or 500 if none; body = the earlier bytes followed by a tail that (development) shows the panic value, (otherwise) shows neither the value nor stack frames; every recording middleware logged its code after Next(); a healthy request answers exactly like on a fresh instance. " +
 	"non-trivial = a case with a panic after a write, or inside a nested Next(), or with a non-string value, or with a failed dependency resolution, or followed by a healthy request; distinct by case text"
 
@@ -51,7 +51,8 @@ type Case struct {
 	Outer      int      `json:"outer"`
 	RecoveryAt string   `json:"recovery_at"` // use | group | route
 	After      []H      `json:"after"`
-	Reqs       []string `json:"requests"` // "p" | "ok"
+	Reqs       []string `json:"requests"`         // "p" | "ok"
+	Method     string   `json:"method,omitempty"` // GET (default) or HEAD; routes answer both
 }
 
 type customErr struct{ code int }
@@ -74,6 +75,12 @@ func panicValue(kind string) interface{} {
 		return customErr{7}
 	case "int":
 		return 12345
+	case "slice":
+		return []int{4, 2}
+	case "map":
+		return map[string]int{"fortytwo": 42}
+	case "ncstruct":
+		return struct{ Xs []string }{[]string{"fortytwo"}}
 	case "typednil":
 		// a non-nil interface value holding a nil pointer whose Error method
 		// dereferences the receiver
@@ -104,6 +111,10 @@ func panicToken(kind string) string {
 		return "boom-error"
 	case "struct":
 		return "42"
+	case "slice":
+		return "4"
+	case "map", "ncstruct":
+		return "fortytwo"
 	case "abort":
 		return "abort"
 	case "custom":
@@ -261,16 +272,16 @@ func build(c Case) *app {
 	switch c.RecoveryAt {
 	case "use":
 		a.f.Use(flamego.Recovery())
-		a.f.Get("/p", hs...)
-		a.f.Get("/ok", ok)
+		a.f.Routes("/p", "GET,HEAD", hs...)
+		a.f.Routes("/ok", "GET,HEAD", ok)
 	case "group":
 		a.f.Group("/g", func() {
-			a.f.Get("/p", hs...)
-			a.f.Get("/ok", ok)
+			a.f.Routes("/p", "GET,HEAD", hs...)
+			a.f.Routes("/ok", "GET,HEAD", ok)
 		}, flamego.Recovery())
 	case "route":
-		a.f.Get("/p", append([]flamego.Handler{flamego.Recovery()}, hs...)...)
-		a.f.Get("/ok", flamego.Recovery(), ok)
+		a.f.Routes("/p", "GET,HEAD", append([]flamego.Handler{flamego.Recovery()}, hs...)...)
+		a.f.Routes("/ok", "GET,HEAD", flamego.Recovery(), ok)
 	}
 	return a
 }
@@ -289,9 +300,11 @@ type resp struct {
 	escaped interface{}
 }
 
-func serve(a *app, path string) (r resp) {
+func serve(a *app, path string) (r resp) { return serveM(a, "GET", path) }
+
+func serveM(a *app, method, path string) (r resp) {
 	spy := rt.NewSpy()
-	req := rt.NewRequest("GET", path, nil)
+	req := rt.NewRequest(method, path, nil)
 	ctx, cancel := gocontext.WithCancel(gocontext.Background())
 	defer cancel()
 	a.cancel = cancel
@@ -342,14 +355,19 @@ func checkCase(c Case) (out evid.Outcome) {
 		}
 	}
 	want := simulate(hs)
-	fresh := serve(freshApp, c.path("ok"))
-	if fresh.escaped != nil || fresh.status != 200 || fresh.body != "ok" {
+	method := c.Method
+	if method == "" {
+		method = "GET"
+	}
+	head := method == "HEAD"
+	fresh := serveM(freshApp, method, c.path("ok"))
+	if fresh.escaped != nil || fresh.status != 200 || (fresh.body != "ok" && !head) {
 		return evid.Fail("healthy-baseline", "a fresh instance answers the healthy route with %+v", fresh)
 	}
 	sawPanic := false
 	for i, which := range c.Reqs {
 		a.log = nil
-		got := serve(a, c.path(which))
+		got := serveM(a, method, c.path(which))
 		desc := fmt.Sprintf("request %d (%s) of %s", i, which, js(c))
 		if got.escaped != nil {
 			return fail(out, "escaped", "a panic escaped ServeHTTP: %v; %s", got.escaped, desc)
@@ -368,6 +386,9 @@ func checkCase(c Case) (out evid.Outcome) {
 				out.Classes = append(out.Classes, "healthy-after-panic")
 			}
 			continue
+		}
+		if head {
+			want.body = "" // HEAD forwards no body bytes
 		}
 		if want.panicked == "" {
 			if got.status != want.status || got.body != want.body {
@@ -388,6 +409,14 @@ func checkCase(c Case) (out evid.Outcome) {
 			return fail(out, "body-prefix", "body %q does not start with the bytes written before the panic %q; %s", clip(got.body), want.body, desc)
 		}
 		tail := got.body[len(want.body):]
+		if head {
+			if tail != "" {
+				return fail(out, "head-body", "HEAD request got a body %q; %s", clip(tail), desc)
+			}
+			out.NonTrivial = true
+			out.Classes = append(out.Classes, "head")
+			continue
+		}
 		// "panic detail appears in the body only in development mode": the
 		// statement does not fix the wording of either page, so only the presence
 		// / absence of the detail (the rendered value, stack frames) is checked
@@ -450,7 +479,7 @@ func js(v interface{}) string {
 	return string(b)
 }
 
-var kinds = []string{"string", "error", "runtime", "struct", "abort", "custom", "int", "typednil"}
+var kinds = []string{"string", "error", "runtime", "struct", "abort", "custom", "int", "typednil", "slice", "map", "ncstruct"}
 
 func genCase(t *rapid.T) Case {
 	c := Case{
@@ -458,6 +487,7 @@ func genCase(t *rapid.T) Case {
 		Outer:      rapid.IntRange(0, 2).Draw(t, "outer"),
 		RecoveryAt: []string{"use", "group", "route"}[rapid.IntRange(0, 2).Draw(t, "at")],
 	}
+	c.Method = []string{"GET", "GET", "GET", "HEAD"}[rapid.IntRange(0, 3).Draw(t, "method")]
 	if rapid.IntRange(0, 2).Draw(t, "envswitch") == 0 {
 		c.EnvAtBuild = []string{"development", "production", "test"}[rapid.IntRange(0, 2).Draw(t, "envbuild")]
 	}
